@@ -38,6 +38,38 @@ def plan_rng(seed):
     return random.Random(_mix(seed, 'plan'))
 
 
+PINNED = os.path.join(VERIF, 'pinned')
+PIN_SEEDS = 12               # schedule seeds per pinned plan and invocation
+_pinned_cache = {}
+
+
+def pinned_plans(pid):
+    """Committed plans (/verif/pinned/<Cnn>-*.json: rare scenarios found by the thorough tier or by seeded changes) that every
+    invocation re-runs first, each under PIN_SEEDS fresh schedule seeds.  Only the plan is pinned; schedules are drawn anew."""
+    if pid not in _pinned_cache:
+        out = []
+        try:
+            names = sorted(n for n in os.listdir(PINNED) if n.startswith(pid + '-') and n.endswith('.json'))
+        except OSError:
+            names = []
+        for n in names:
+            try:
+                with open(os.path.join(PINNED, n)) as f:
+                    out.append(json.load(f)['plan'])
+            except (IOError, ValueError, KeyError):
+                pass
+        _pinned_cache[pid] = out
+    return _pinned_cache[pid]
+
+
+def make_plan(prop, pid, seed, i, tier):
+    """Run index i -> plan: the first len(pinned)*PIN_SEEDS indices replay pinned plans, the rest are generated from the seed."""
+    pins = pinned_plans(pid)
+    if i is not None and 0 <= i < len(pins) * PIN_SEEDS:
+        return json.loads(json.dumps(pins[i // PIN_SEEDS]))
+    return prop.gen_plan(plan_rng(seed), tier)
+
+
 # ------------------------------------------------------------------ one run, in this process
 def execute(prop, plan, seed, choices=None, want_choices=False, want_log=False):
     """Run one plan.  Must be called in a fresh forked child (global state is consumed)."""
@@ -160,7 +192,7 @@ def _block_child(prop, pid_, master, indices, tier, out_fd, wall_cap):
         signal.setitimer(signal.ITIMER_REAL, wall_cap)
         T['start'] += time.time() - t_a
         seed = run_seed(master, pid_, i)
-        plan = prop.gen_plan(plan_rng(seed), tier)
+        plan = make_plan(prop, pid_, seed, i, tier)
         t_b = time.time()
         res = execute(prop, plan, seed)
         T['exec'] += time.time() - t_b
@@ -244,7 +276,7 @@ def _worker(prop, pid_, master, indices, deadline, out_fd, wall_cap, tier, det_i
                         res2['plan'] = res['plan']
                         res = res2
                 if i in det_indices and res.get('status') == 'ok':
-                    res2 = fork_run(prop, prop.gen_plan(plan_rng(res['seed']), tier), res['seed'],
+                    res2 = fork_run(prop, make_plan(prop, pid_, res['seed'], i, tier), res['seed'],
                                     wall_cap=wall_cap * 2)
                     res['det_pair'] = [res.get('digest'), res2.get('digest')]
                 emit(res)
@@ -260,13 +292,13 @@ def _worker(prop, pid_, master, indices, deadline, out_fd, wall_cap, tier, det_i
         if current is not None and capped and time.time() > deadline:
             # the run hung until its wall cap and the budget is over: it is reported (HARNESS-ERROR), never dropped
             seed = run_seed(master, pid_, current)
-            emit({'seed': seed, 'index': current, 'status': 'killed', 'plan': prop.gen_plan(plan_rng(seed), tier),
+            emit({'seed': seed, 'index': current, 'status': 'killed', 'plan': make_plan(prop, pid_, seed, current, tier),
                   'error': 'wall cap %.0fs (run did not finish; budget over, not retried)' % wall_cap})
             done += 1
         elif current is not None and time.time() <= deadline:
             # the child died (wall cap or crash) inside run `current`: retry it alone, then go on
             seed = run_seed(master, pid_, current)
-            plan = prop.gen_plan(plan_rng(seed), tier)
+            plan = make_plan(prop, pid_, seed, current, tier)
             res = fork_run(prop, plan, seed, wall_cap=wall_cap * 2)
             res['index'] = current
             res['plan'] = plan
@@ -516,6 +548,7 @@ class Aggregate(object):
             'rules_checked': self.rules_checked,
             'strata': self.strata,
             'run_statuses': self.statuses,
+            'pinned_plans': len(pinned_plans(self.pid)) if hasattr(self, 'pid') else 0,
             'determinism_pairs': self.det_pairs,
             'determinism_mismatches': len(self.det_mismatch),
             'other_anomalies_not_deciding': self.other,
